@@ -167,9 +167,16 @@ def mutate_source(src, rnd, pool):
             n = rnd.choice(names)
             return kind, re.sub(r"\b%s\b" % re.escape(n), rnd.choice(["nosuch", "END", "x", n + "2", "function"]), src, count=rnd.choice([1, 99]))
     if kind == "nest":
-        n = rnd.choice([10, 200, 3000])
-        op, cl = rnd.choice([("{", "}"), ("(", ")"), ("[", "]"), ("{a:", "}")])
-        return kind, src + "\n" + op * n + "x" + (cl * n if rnd.random() < 0.5 else "")
+        # every depth, not a few: limits of the compiler and of the runtime's reader lie somewhere in between
+        n = rnd.choice([rnd.randint(2, 24), rnd.randint(24, 70), rnd.randint(24, 70), rnd.randint(70, 140), 200, 3000])
+        form = rnd.randrange(8)
+        if form == 0:
+            # ever deeper weave levels
+            return kind, src + "\n== nestk ==\n" + "\n".join("%sc%d" % ("* " * k, k) for k in range(1, min(n, 150) + 1)) + "\n-> END\n"
+        if form == 1:
+            return kind, src + "\n{" + "(" * n + "1" + ")" * n + "}\n"
+        op, cl = [("{", "}"), ("(", ")"), ("[", "]"), ("{a:", "}"), ("{true:", "}"), ("{a|", "}")][form - 2]
+        return kind, src + "\n" + op * n + "x" + (cl * n if rnd.random() < 0.7 else "")
     if kind == "bytes" and src:
         b = bytearray(src.encode("utf-8"))
         for _ in range(rnd.randint(1, 4)):
